@@ -447,6 +447,12 @@ def evaluate(scratch, sd, tier, seed, nrep=1):
     flagged = set()
     for v in C.read_ndjson(os.path.join(ed, 'viol.ndjson')):
         r = byid[v['id']]
+        if v['sig']['f'] == 'gap':
+            # a sidecar takes an update over before it runs the callbacks and puts it back when they fail: a sample taken in
+            # between sees a holder that never scraped the target.  Only a holder that has scraped counts for a gap.
+            before = r['steps'][v['sig']['at'] - 2]['world']
+            if not any(x['h'] == v['sig']['t'] and x['times'] > 0 for sh in before['shards'] for x in sh['status']):
+                continue
         flagged.add(v['id'])
         viol.append(dict(sig=dict(f='system:' + v['sig']['f'], phase=r['phase']),
                          replay=dict(scenario=notes[r['scenario']], phase=r['phase'], violation=v['sig'], final_world=r['steps'][-1]['world']),
